@@ -192,11 +192,12 @@ def _diff(a, b):
 
 def _alias_shape(m: FuncInfo) -> Optional[str]:
     """`if inplace is False: x = deepcopy(self) else: x = self` (or the conditional expression form)"""
+    cm = Canon(m.node)
     for st in m.node.body:
         if isinstance(st, ast.Assign) and len(st.targets) == 1 and isinstance(st.targets[0], ast.Name) and \
-                isinstance(st.value, ast.IfExp) and _inplace_test(st.value.test) is not None:
+                isinstance(st.value, ast.IfExp) and _inplace_test(cm.resolve(st.value.test)) is not None:
             a, b = st.value.body, st.value.orelse
-            pol = _inplace_test(st.value.test)
+            pol = _inplace_test(cm.resolve(st.value.test))
             self_arm, copy_arm = (a, b) if pol else (b, a)
             if norm_stmt(self_arm) == 'self' and _strip_copy(copy_arm) == 'self' and norm_stmt(copy_arm) != 'self':
                 return st.targets[0].id
@@ -282,45 +283,87 @@ def _assigned(m: FuncInfo, name: str) -> List[ast.AST]:
     return out
 
 
-def _mods_store(m: FuncInfo):
-    """(loop, store) of `for <p>, <mods> in self.internal_mods.items(): ... D[<key>] = copy.deepcopy(<mods>)`"""
-    for loop in walk_own(m.node):
-        if isinstance(loop, ast.For) and norm_stmt(loop.iter) in ('self.internal_mods.items()',
-                                                                 'self._internal_mods.items()') and \
-                isinstance(loop.target, ast.Tuple) and len(loop.target.elts) == 2:
-            for node in ast.walk(loop):
-                if isinstance(node, ast.Assign) and isinstance(node.targets[0], ast.Subscript) and \
-                        isinstance(node.targets[0].value, ast.Name):
-                    return loop, node
-    raise AnalysisError(f'{m.fq}: the loop that re-keys the residue modifications was not found')
+class _Rekey:
+    """how a method re-keys the residue modifications: `for p, mods in self.internal_mods.items(): D[KEY] = copy(mods)`
+    or `{KEY: copy(mods) for p, mods in self.internal_mods.items() if COND}`"""
+
+    def __init__(self, m: FuncInfo):
+        self.m = m
+        self.key = self.pos = self.node = None
+        self.tests: List[Tuple[ast.AST, bool]] = []
+        self.exits: List[ast.AST] = []
+        self.ordered = False
+
+        def over_mods(it) -> bool:
+            t = norm_stmt(it)
+            return 'internal_mods' in t and t.endswith('.items()')
+        for x in ast.walk(m.node):
+            if isinstance(x, ast.DictComp) and len(x.generators) == 1 and over_mods(x.generators[0].iter) and \
+                    isinstance(x.generators[0].target, ast.Tuple) and isinstance(x.generators[0].target.elts[0], ast.Name):
+                g = x.generators[0]
+                self.key, self.pos, self.node = x.key, g.target.elts[0].id, x
+                self.tests = [(t, True) for t in g.ifs]
+                self.ordered = True   # a comprehension cannot leave early
+                return
+        for loop in ast.walk(m.node):
+            if isinstance(loop, ast.For) and (over_mods(loop.iter) or (
+                    isinstance(loop.iter, ast.Call) and norm_stmt(loop.iter.func) == 'sorted' and loop.iter.args and
+                    over_mods(loop.iter.args[0]))) and isinstance(loop.target, ast.Tuple) and \
+                    isinstance(loop.target.elts[0], ast.Name):
+                for node in ast.walk(loop):
+                    if isinstance(node, ast.Assign) and isinstance(node.targets[0], ast.Subscript) and \
+                            isinstance(node.targets[0].value, ast.Name):
+                        self.key, self.pos, self.node = node.targets[0].slice, loop.target.elts[0].id, node
+                        self.tests = list(dominating_tests(loop, node)) + [(t, False) for t in
+                                                                          preceding_exits(loop.body, node)]
+                        self.exits = [y for y in ast.walk(loop) if isinstance(y, (ast.Break, ast.Return))]
+                        self.ordered = isinstance(loop.iter, ast.Call) and norm_stmt(loop.iter.func) == 'sorted'
+                        return
+        raise AnalysisError(f'{m.fq}: the re-keying of the residue modifications (loop or dict comprehension over '
+                            f'internal_mods.items()) was not found')
 
 
 def _interval_ctor(m: FuncInfo):
-    for node in walk_own(m.node):
-        if isinstance(node, ast.Call) and isinstance(node.func, ast.Name) and node.func.id == 'Interval':
-            kws = {kw.arg: kw.value for kw in node.keywords}
-            if 'start' in kws and 'end' in kws:
-                return node, kws
+    """(call, keywords, function node that owns the call, name of the source-interval variable)"""
+    for owner in [m.node] + [x for x in ast.walk(m.node) if isinstance(x, ast.FunctionDef) and x is not m.node]:
+        for node in walk_own(owner):
+            if isinstance(node, ast.Call) and isinstance(node.func, ast.Name) and node.func.id == 'Interval':
+                kws = {kw.arg: kw.value for kw in node.keywords}
+                if 'start' in kws and 'end' in kws:
+                    src = None
+                    for kw in ('ambiguous', 'mods', 'start', 'end'):
+                        for y in ast.walk(kws.get(kw, ast.Constant(value=None))):
+                            if isinstance(y, ast.Attribute) and isinstance(y.value, ast.Name) and \
+                                    y.attr in ('ambiguous', 'mods', 'start', 'end'):
+                                src = src or y.value.id
+                    return node, kws, owner, src
     raise AnalysisError(f'{m.fq}: the Interval(start=..., end=...) construction was not found')
 
 
-def _roles(m: FuncInfo) -> FuncInfo:
-    """the method with its position / interval loop variables spelled `p` and `interval`"""
-    return localise(m, {'p': each(lambda t: t in ('self.internal_mods.items()', 'self._internal_mods.items()'), (0,)),
-                        'interval': each(lambda t: t in ('self.intervals', 'self._intervals'))})
+class _Rename(ast.NodeTransformer):
+    def __init__(self, mapping):
+        self.mapping = mapping
+
+    def visit_Name(self, n):
+        return ast.copy_location(ast.Name(id=self.mapping.get(n.id, n.id), ctx=n.ctx), n)
 
 
-def _values(m: FuncInfo, c: Canon, e) -> List[Tuple[ast.AST, ast.AST]]:
+def _values(owner, c: Canon, e, rename) -> List[Tuple[ast.AST, ast.AST]]:
     """(node for the report, expression) pairs an argument can take: the resolved expression, or every plain
-    assignment of a local that is bound more than once (tuple swaps and None arms are skipped)"""
+    assignment of a local that is bound more than once (tuple swaps and None arms are skipped); position / interval
+    variables are spelled `p` / `interval`"""
+    def norm(x):
+        return _Rename(rename).visit(copy.deepcopy(c.resolve(x)))
     if isinstance(e, ast.Name) and c.is_local(e.id) and c.single_value(e.id) is None:
         out = []
-        for node in _assigned(m, e.id):
-            if isinstance(node.value, ast.Tuple) or (isinstance(node.value, ast.Constant) and node.value.value is None):
-                continue
-            out.append((node, c.resolve(node.value)))
+        for node in walk_own(owner):
+            if isinstance(node, ast.Assign) and len(node.targets) == 1 and isinstance(node.targets[0], ast.Name) and \
+                    node.targets[0].id == e.id:
+                if isinstance(node.value, ast.Tuple) or (isinstance(node.value, ast.Constant) and node.value.value is None):
+                    continue
+                out.append((node, norm(node.value)))
         return out
-    return [(e, c.resolve(e))]
+    return [(e, norm(e))]
 
 
 def index_kinds(ctx, rep, clause, methods=('reverse', 'slice', 'shift')):
@@ -328,8 +371,8 @@ def index_kinds(ctx, rep, clause, methods=('reverse', 'slice', 'shift')):
     cls = program.cls(PFA)
     n_ = atom('len')
 
-    def expect(m: FuncInfo, c: Canon, e, want: Poly, what: str, kind: str):
-        vals = _values(m, c, e)
+    def expect(m: FuncInfo, owner, c: Canon, e, rename, want: Poly, what: str, kind: str):
+        vals = _values(owner, c, e, rename)
         if not vals:
             raise AnalysisError(f'{m.fq}: no value found for {norm_stmt(e)}')
         for node, val in vals:
@@ -337,29 +380,43 @@ def index_kinds(ctx, rep, clause, methods=('reverse', 'slice', 'shift')):
             ob(rep, 'KIND', m.fq, f'{what}: {fmt(want)}', got == want, f'{kind} map',
                f'`{norm_stmt(val)[:90]}` computes {fmt(got)}; a {kind} must be mapped to {fmt(want)}', m.loc(node), clause)
 
+    def interval_exprs(m):
+        call, kws, owner, src = _interval_ctor(m)
+        # locals of an inner helper are resolved there first, then the enclosing method's (the shift amount, the length)
+        c_in = Canon(owner)
+        c_out = Canon(m.node)
+
+        class Two:
+            def is_local(self_, n):
+                return c_in.is_local(n)
+
+            def single_value(self_, n):
+                return c_in.single_value(n)
+
+            def resolve(self_, x):
+                return c_out.resolve(c_in.resolve(x)) if owner is not m.node else c_in.resolve(x)
+        return call, kws, owner, Two(), ({src: 'interval'} if src else {})
+
     if 'reverse' in methods:
-        # -- reverse
-        rev = _roles(cls.methods['reverse'])
+        rev = cls.methods['reverse']
         c = Canon(rev.node)
-        _loop, store = _mods_store(rev)
-        expect(rev, c, store.targets[0].slice, padd(padd(n_, atom('p'), -1), const(1), -1),
+        rk = _Rekey(rev)
+        expect(rev, rev.node, c, rk.key, {rk.pos: 'p'}, padd(padd(n_, atom('p'), -1), const(1), -1),
                'reverse maps a residue Position p to len-1-p', 'Position')
-        _call, kws = _interval_ctor(rev)
-        expect(rev, c, kws['start'], padd(n_, atom('interval.end'), -1),
+        _call, kws, owner, c2, ren = interval_exprs(rev)
+        expect(rev, owner, c2, kws['start'], ren, padd(n_, atom('interval.end'), -1),
                'reverse maps interval Boundaries (s, e) to (len-e, len-s), new start', 'Boundary')
-        expect(rev, c, kws['end'], padd(n_, atom('interval.start'), -1),
+        expect(rev, owner, c2, kws['end'], ren, padd(n_, atom('interval.start'), -1),
                'reverse maps interval Boundaries (s, e) to (len-e, len-s), new end', 'Boundary')
     if 'slice' in methods:
-        # -- slice
-        sl = _roles(cls.methods['slice'])
+        sl = cls.methods['slice']
         c = Canon(sl.node)
-        loop, store = _mods_store(sl)
-        key_ok = epoly(c.resolve(store.targets[0].slice)) == padd(atom('p'), atom('start'), -1)
+        rk = _Rekey(sl)
+        ren = {rk.pos: 'p'}
+        key_ok = epoly(_Rename(ren).visit(copy.deepcopy(c.resolve(rk.key)))) == padd(atom('p'), atom('start'), -1)
         ob(rep, 'KIND', sl.fq, 'slice re-bases a residue Position k to k - start', key_ok, 'Position - Boundary',
-           'the new key of a residue modification is not k - start', sl.loc(store), clause)
-        # the store runs for exactly the keys start <= p < stop: decided over a finite set of orderings of (p, start, stop)
-        tests = [(t, pol) for t, pol in dominating_tests(loop, store)] + \
-                [(t, False) for t in preceding_exits(loop.body, store)]
+           'the new key of a residue modification is not k - start', sl.loc(rk.node), clause)
+        # the entry is kept for exactly the keys start <= p < stop: decided over a finite set of orderings
         bad = None
         undecided = False
         for pv in range(-1, 6):
@@ -367,8 +424,8 @@ def index_kinds(ctx, rep, clause, methods=('reverse', 'slice', 'shift')):
                 for ev in range(0, 6):
                     ge = GuardEval({'p': pv, 'start': sv, 'stop': ev}, c.aliases())
                     runs = True
-                    for t, pol in tests:
-                        v = ge.eval(t)
+                    for t, pol in rk.tests:
+                        v = ge.eval(_Rename(ren).visit(copy.deepcopy(t)))
                         if v is UNK:
                             undecided = True
                             continue
@@ -376,34 +433,36 @@ def index_kinds(ctx, rep, clause, methods=('reverse', 'slice', 'shift')):
                             runs = False
                     if runs != (sv <= pv < ev) and bad is None:
                         bad = (pv, sv, ev, runs)
-        filt_ok = bad is None and not undecided and bool(tests)
+        filt_ok = bad is None and not undecided and bool(rk.tests)
         ob(rep, 'KIND', sl.fq, 'slice keeps exactly the Positions start <= k < stop', filt_ok, 'half-open range',
            'the filter on residue-modification keys is not `start <= k < stop`' +
            (f': for k={bad[0]}, start={bad[1]}, stop={bad[2]} the modification is {"kept" if bad[3] else "dropped"}'
-            if bad else ' (a guard could not be decided over k, start, stop)'), sl.loc(store), clause)
-        # every key is visited: leaving the loop early is only sound over an explicitly ordered iteration
-        exits = [x for x in ast.walk(loop) if isinstance(x, (ast.Break, ast.Return))]
-        ordered = isinstance(loop.iter, ast.Call) and isinstance(loop.iter.func, ast.Name) and loop.iter.func.id == 'sorted'
-        ob(rep, 'KIND', sl.fq, 'slice visits every residue-modification key', not exits or ordered,
+            if bad else ' (a guard could not be decided over k, start, stop)'), sl.loc(rk.node), clause)
+        ob(rep, 'KIND', sl.fq, 'slice visits every residue-modification key', not rk.exits or rk.ordered,
            'no early exit from the loop over the (unordered) position map',
-           f'the loop over self.internal_mods leaves early (`{norm_stmt(exits[0]) if exits else ""}`): the keys of that '
+           f'the loop over self.internal_mods leaves early (`{norm_stmt(rk.exits[0]) if rk.exits else ""}`): the keys of that '
            f'dict are in insertion order, not residue order (after reverse/shift/add_internal_mod), so modifications '
-           f'filed after a larger position are lost from the piece', sl.loc(exits[0]) if exits else sl.loc(loop), clause)
-        _call, kws = _interval_ctor(sl)
-        expect(sl, c, kws['start'], atom(f'max0({fmt(padd(atom("interval.start"), atom("start"), -1))})'),
+           f'filed after a larger position are lost from the piece', sl.loc(rk.exits[0]) if rk.exits else sl.loc(rk.node),
+           clause)
+        call, kws, owner, c2, iren = interval_exprs(sl)
+        expect(sl, owner, c2, kws['start'], iren, atom(f'max0({fmt(padd(atom("interval.start"), atom("start"), -1))})'),
                'slice re-bases an interval Boundary b to max(0, b - start), new start', 'Boundary')
-        expect(sl, c, kws['end'], atom(f'max0({fmt(padd(atom("interval.end"), atom("start"), -1))})'),
+        expect(sl, owner, c2, kws['end'], iren, atom(f'max0({fmt(padd(atom("interval.end"), atom("start"), -1))})'),
                'slice re-bases an interval Boundary b to max(0, b - start), new end', 'Boundary')
-        # which intervals are kept: the half-open ranges [s, e) and [start, stop) intersect
-        filt = None
-        for node in walk_own(sl.node):
-            if isinstance(node, ast.If) and 'interval.start' in norm_stmt(node.test) and 'interval.end' in norm_stmt(node.test):
-                filt = node
+        # which intervals are kept: the half-open ranges [s, e) and [start, stop) intersect -- the governing tests of
+        # the construction (enclosing ifs, or the ifs of the comprehension it sits in)
+        gov = [t for t, pol in dominating_tests(sl.node, call) if pol]
+        for x in ast.walk(sl.node):
+            if isinstance(x, (ast.ListComp, ast.GeneratorExp)) and any(y is call for y in ast.walk(x.elt)):
+                gov += [t for g_ in x.generators for t in g_.ifs]
         atoms = set()
-        if filt is not None:
-            parts = filt.test.values if isinstance(filt.test, ast.BoolOp) and isinstance(filt.test.op, ast.And) else [filt.test]
-            flip = {ast.Lt: '>', ast.Gt: '<', ast.LtE: '>=', ast.GtE: '<='}
-            sym = {ast.Lt: '<', ast.Gt: '>', ast.LtE: '<=', ast.GtE: '>='}
+        flip = {ast.Lt: '>', ast.Gt: '<', ast.LtE: '>=', ast.GtE: '<='}
+        sym = {ast.Lt: '<', ast.Gt: '>', ast.LtE: '<=', ast.GtE: '>='}
+        for t in gov:
+            t = _Rename(iren).visit(copy.deepcopy(t))
+            if not ('interval.start' in norm_stmt(t) or 'interval.end' in norm_stmt(t)):
+                continue
+            parts = t.values if isinstance(t, ast.BoolOp) and isinstance(t.op, ast.And) else [t]
             for p_ in parts:
                 if isinstance(p_, ast.Compare) and len(p_.ops) == 1 and type(p_.ops[0]) in sym:
                     l, r = norm_stmt(p_.left), norm_stmt(p_.comparators[0])
@@ -415,33 +474,27 @@ def index_kinds(ctx, rep, clause, methods=('reverse', 'slice', 'shift')):
            atoms == {('interval.start', '<', 'stop'), ('interval.end', '>', 'start')}, 'interval.start < stop and '
            'interval.end > start', f'interval filter is {sorted(atoms)}: an interval that only touches the slice at a '
            f'boundary (e == start or s == stop) is carried into the piece as an empty interval with its modifications',
-           sl.loc(filt) if filt is not None else sl.loc(), clause)
+           sl.loc(call), clause)
         cuts = [x for x in walk_own(sl.node) if isinstance(x, ast.Subscript) and isinstance(x.slice, ast.Slice) and
                 norm_stmt(x.value) in ('self.sequence', 'self._sequence')]
         ob(rep, 'KIND', sl.fq, 'slice cuts the residues with [start:stop]',
            len(cuts) == 1 and norm_stmt(cuts[0]).endswith('[start:stop]'), 'same half-open range as the keys',
            f'residues are cut with `{norm_stmt(cuts[0]) if cuts else "?"}`', sl.loc(), clause)
     if 'shift' in methods:
-        # -- shift
-        sh = _roles(cls.methods['shift'])
+        sh = cls.methods['shift']
         c = Canon(sh.node)
-        _loop, store = _mods_store(sh)
+        rk = _Rekey(sh)
         amount = atom(f'({fmt(atom("n"))}) mod ({fmt(n_)})')
-        expect(sh, c, store.targets[0].slice, atom(f'({fmt(padd(atom("p"), amount, -1))}) mod ({fmt(n_)})'),
+        expect(sh, sh.node, c, rk.key, {rk.pos: 'p'}, atom(f'({fmt(padd(atom("p"), amount, -1))}) mod ({fmt(n_)})'),
                'shift maps a Position p to (p - n mod len) mod len', 'Position')
-        # intervals: the start is the Position of the first covered residue, the end is a Boundary = Position of the last
-        # covered residue + 1, so the end maps through that residue: ((e - 1 - k) mod len) + 1 (a Boundary equal to len
-        # must not be reduced to 0)
-        _call, kws = _interval_ctor(sh)
-        expect(sh, c, kws['start'], atom(f'({fmt(padd(atom("interval.start"), amount, -1))}) mod ({fmt(n_)})'),
+        call, kws, owner, c2, iren = interval_exprs(sh)
+        expect(sh, owner, c2, kws['start'], iren, atom(f'({fmt(padd(atom("interval.start"), amount, -1))}) mod ({fmt(n_)})'),
                'shift maps the first covered Position s of an interval to (s - n mod len) mod len', 'Position')
-        expect(sh, c, kws['end'],
+        expect(sh, owner, c2, kws['end'], iren,
                padd(atom(f'({fmt(padd(padd(atom("interval.end"), const(1), -1), amount, -1))}) mod ({fmt(n_)})'), const(1)),
                'shift maps the end Boundary e of an interval through its last residue: ((e - 1 - n mod len) mod len) + 1',
                'Boundary')
-        # a cyclic shift can carry an interval across the end of the sequence; exchanging its bounds then describes the
-        # complementary stretch, not the same residues
-        swaps = [x for x in walk_own(sh.node) if isinstance(x, ast.Assign) and isinstance(x.targets[0], ast.Tuple) and
+        swaps = [x for x in ast.walk(sh.node) if isinstance(x, ast.Assign) and isinstance(x.targets[0], ast.Tuple) and
                  isinstance(x.value, ast.Tuple) and len(x.value.elts) == 2 and
                  [norm_stmt(e_) for e_ in x.targets[0].elts] == [norm_stmt(e_) for e_ in reversed(x.value.elts)] and
                  {norm_stmt(e_) for e_ in x.value.elts} == {norm_stmt(kws['start']), norm_stmt(kws['end'])}]
@@ -505,6 +558,11 @@ def rewritten_fields(ctx, rep, clause):
                 if isinstance(val, ast.Name) and val.id in env:
                     val = env[val.id]
                 t = st.targets[0]
+                if isinstance(t, ast.Tuple) and isinstance(val, ast.Tuple) and len(t.elts) == len(val.elts):
+                    for t_, v_ in zip(t.elts, val.elts):   # a, b = (x, y) if flag else (y, x)
+                        if isinstance(t_, ast.Name):
+                            env[t_.id] = env.get(v_.id, v_) if isinstance(v_, ast.Name) else v_
+                    continue
                 if isinstance(t, ast.Name):
                     env[t.id] = val
                 elif isinstance(t, ast.Attribute) and t.attr.lstrip('_') in ('nterm_mods', 'cterm_mods'):
